@@ -47,6 +47,8 @@ pub fn decls() -> Vec<Item> {
         Item::Decl(Some("xml"), XML_NS),
         Item::Decl(Some("xml"), "u9"),
         Item::Decl(Some("xml"), ""),
+        // the reserved namespace names under an ordinary prefix (this parser accepts the XML one)
+        Item::Decl(Some("q"), XML_NS),
     ]
 }
 pub fn attrs() -> Vec<Item> {
